@@ -260,6 +260,7 @@ class Builder(object):
         self.notifs = []     # {'module','name'}
         self.groups = []     # {'module','name'}
         self.rows = []       # {'module','name','index':[...]}
+        self.hide = set()    # names about to be declared locally: same-named symbols of other modules are invisible
         for n, (mod, oid) in fixtures.WELL_KNOWN.items():
             self.nodes.append({'module': mod, 'name': n, 'oid': tuple(oid), 'fixture': True})
         for n, (mod, kind, enum) in fixtures.FIXTURE_TYPES.items():
@@ -309,7 +310,7 @@ class Builder(object):
                 continue
             out.append(n)
         # a local declaration hides same-named nodes of other modules
-        local_names = set(n['name'] for n in out if n['module'] == mod['name'])
+        local_names = set(n['name'] for n in out if n['module'] == mod['name']) | self.hide
         seen = set()
         res = []
         for n in out:
@@ -365,6 +366,8 @@ class Builder(object):
         symbol of an earlier module (within one module a name resolves to exactly one defining module)."""
         if o['module'] == mod['name']:
             return False
+        if o['name'] in self.hide:
+            return True
         owner = None
         for n in self.nodes:
             if n['name'] == o['name'] and not n.get('fixture'):
@@ -1131,10 +1134,12 @@ def module_sets(draw, prof=None):
                 o = draw(st.sampled_from(fobjs))
                 saved = b.names.lower
                 b.names.lower = lambda: o['name']
+                b.hide = {o['name']}     # the module must not also import the name it is about to declare
                 try:
                     d_ = _gen_scalar(b, mod)
                 finally:
                     b.names.lower = saved
+                    b.hide = set()
                 groups.append(d_)
         if dialect == 'v2' and 'mi' in (prof['kinds'] or ('mi',)) and draw(st.integers(0, 3)):
             groups.append(_gen_mi(b, mod))
